@@ -362,7 +362,11 @@ func mutateLevel(fs []fld, s *msch, ctx *mutCtx) ([]fld, string) {
 			sub = "bytes-12pct"
 		default:
 			if rng.Bool() {
-				nf = fld{num: num, wt: 2, raw: rng.Bytes(ctx.topSize + rng.Intn(ctx.topSize+1))}
+				n := ctx.topSize + rng.Intn(ctx.topSize+1)
+				if ctx.topSize < 16 {
+					n += 8 + rng.Intn(60) // tiny or empty objects: still a sizeable blob
+				}
+				nf = fld{num: num, wt: 2, raw: rng.Bytes(n)}
 				sub = "bytes-100pct"
 			} else {
 				nf = fld{num: num, wt: 1, raw: rng.Bytes(8)}
